@@ -179,20 +179,20 @@ AutoRow(k, c) == IF acc[k].reg[c] = 0 THEN [special |-> TRUE, n |-> 0 - 1, vals 
 AutoFinal(k) == IF acc[k].reg[FINAL] # 0 THEN acc[k].rows[acc[k].reg[FINAL]] ELSE acc[k].rows[acc[k].lastit]
 
 \* ---------------------------------------------------------------- reference (property layer)
-\* the row NONMEM designates for code c in table tab: the unique row with that ITERATION value
-RefRows(tab) == ExtRows(file.cfg, tab)
+\* (rows = ExtRows(cfg, tab), passed explicitly so that it is evaluated once per use site)
+\* the row NONMEM designates for code c: the unique row with that ITERATION value
 NoRow == [special |-> TRUE, n |-> 0 - 1, vals |-> <<>>, obj |-> 0]      \* "no such row": the reader raises KeyError
 Missing(r) == r.n = 0 - 1
-Designated(tab, c) == LET S == {i \in 1..Len(RefRows(tab)) : RefRows(tab)[i].special /\ RefRows(tab)[i].n = c} IN
-                      IF S = {} THEN NoRow ELSE RefRows(tab)[CHOOSE i \in S : TRUE]
-Ordinary(tab) == {i \in 1..Len(RefRows(tab)) : ~RefRows(tab)[i].special}
+Designated(rows, c) == LET S == {i \in 1..Len(rows) : rows[i].special /\ rows[i].n = c} IN
+                       IF S = {} THEN NoRow ELSE rows[CHOOSE i \in S : TRUE]
+Ordinary(rows) == {i \in 1..Len(rows) : ~rows[i].special}
 \* final estimates: the -1000000000 row; for an aborted run the last ordinary iteration
-RefFinal(tab) == IF ~Missing(Designated(tab, FINAL)) THEN Designated(tab, FINAL)
-                 ELSE RefRows(tab)[CHOOSE i \in Ordinary(tab) : \A j \in Ordinary(tab) : RefRows(tab)[j].n <= RefRows(tab)[i].n]
-RefInitialOfv(tab) == LET Z == {i \in Ordinary(tab) : RefRows(tab)[i].n = 0} IN
-                      IF Z # {} THEN [err |-> "", v |-> RefRows(tab)[CHOOSE i \in Z : TRUE].obj]
-                      ELSE IF ~Missing(Designated(tab, FINAL)) THEN [err |-> "", v |-> Designated(tab, FINAL).obj]
-                      ELSE [err |-> "KeyError", v |-> 0]
+RefFinal(rows) == IF ~Missing(Designated(rows, FINAL)) THEN Designated(rows, FINAL)
+                  ELSE rows[CHOOSE i \in Ordinary(rows) : \A j \in Ordinary(rows) : rows[j].n <= rows[i].n]
+RefInitialOfv(rows) == LET Z == {i \in Ordinary(rows) : rows[i].n = 0} IN
+                       IF Z # {} THEN [err |-> "", v |-> rows[CHOOSE i \in Z : TRUE].obj]
+                       ELSE IF ~Missing(Designated(rows, FINAL)) THEN [err |-> "", v |-> Designated(rows, FINAL).obj]
+                       ELSE [err |-> "KeyError", v |-> 0]
 
 AutomatonIsReference ==
     Done =>
@@ -205,34 +205,38 @@ AutomatonIsReference ==
                 /\ \A r \in 1..Len(acc[k].rows) : acc[k].rows[r].vals = [c \in 1..GenCols |-> GenVal(acc[k].no, r, c)]
       ELSE /\ Len(acc) = Len(file.tabs)
            /\ \A k \in 1..Len(acc) :
+                LET rows == ExtRows(file.cfg, file.tabs[k]) IN
                 /\ acc[k].no = file.tabs[k].no
-                /\ \A c \in Codes : AutoRow(k, c) = Designated(file.tabs[k], c)
-                /\ AutoFinal(k) = RefFinal(file.tabs[k])
+                /\ \A c \in Codes : AutoRow(k, c) = Designated(rows, c)
+                /\ AutoFinal(k) = RefFinal(rows)
 
 \* ---------------------------------------------------------------- what pharmpy must report (emitted)
-ValsByReport(cfg, row) == [k \in 1..Len(ReportOrder(cfg)) |-> row.vals[FilePos(cfg, ReportOrder(cfg)[k])]]
-RowOut(cfg, row, dropthetas) ==
+\* position in the file of the k-th reported parameter
+RepPos(cfg) == [k \in 1..Len(ReportOrder(cfg)) |-> FilePos(cfg, ReportOrder(cfg)[k])]
+RowOut(cfg, pos, row, dropthetas) ==
     IF Missing(row) THEN [err |-> "KeyError", vals |-> <<>>, obj |-> 0]
-    ELSE [err |-> "", vals |-> [k \in 1..Len(ReportOrder(cfg)) |->
+    ELSE [err |-> "", vals |-> [k \in 1..Len(pos) |->
                                    IF dropthetas /\ ReportOrder(cfg)[k].kind = "THETA" THEN 0 - 77777
-                                   ELSE row.vals[FilePos(cfg, ReportOrder(cfg)[k])]], obj |-> row.obj]
-ExtOut(cfg, tab) ==
+                                   ELSE row.vals[pos[k]]], obj |-> row.obj]
+ExtOut(cfg, pos, tab) ==
+    LET rows == ExtRows(cfg, tab) IN
     [no |-> tab.no, iters |-> IterSeq(tab.iters), rowset |-> tab.rows, codes |-> SetToSeq(RowSet(tab.rows)),
-     final |-> RowOut(cfg, RefFinal(tab), FALSE),
-     se |-> RowOut(cfg, Designated(tab, SE), FALSE),
-     cond |-> IF Missing(Designated(tab, COND)) THEN [err |-> "KeyError", v |-> 0] ELSE [err |-> "", v |-> Designated(tab, COND).vals[1]],
-     sdcorr |-> RowOut(cfg, Designated(tab, SDCORR), TRUE),
-     sesdcorr |-> RowOut(cfg, Designated(tab, SESDCORR), TRUE),
-     fixed |-> RowOut(cfg, Designated(tab, FIXROW), FALSE),
-     final_ofv |-> RefFinal(tab).obj,
-     initial_ofv |-> RefInitialOfv(tab)]
+     rows |-> rows,
+     final |-> RowOut(cfg, pos, RefFinal(rows), FALSE),
+     se |-> RowOut(cfg, pos, Designated(rows, SE), FALSE),
+     cond |-> IF Missing(Designated(rows, COND)) THEN [err |-> "KeyError", v |-> 0] ELSE [err |-> "", v |-> Designated(rows, COND).vals[1]],
+     sdcorr |-> RowOut(cfg, pos, Designated(rows, SDCORR), TRUE),
+     sesdcorr |-> RowOut(cfg, pos, Designated(rows, SESDCORR), TRUE),
+     fixed |-> RowOut(cfg, pos, Designated(rows, FIXROW), FALSE),
+     final_ofv |-> RefFinal(rows).obj,
+     initial_ofv |-> RefInitialOfv(rows)]
 
 \* run level (parse_modelfit_results): everything comes from the LAST table
 LastTab == file.tabs[Len(file.tabs)]
 \* fixed status: row -1000000006 of the last table; NONMEM 7.2 has none: the model's FIX, unused elements count as fixed
 RunFixed(cfg) == [k \in 1..Len(ReportOrder(cfg)) |-> Flag(ReportOrder(cfg)[k])]
 KeptIdx(cfg) == {k \in 1..Len(ReportOrder(cfg)) : ~RunFixed(cfg)[k]}
-HasSE == ~Missing(Designated(LastTab, SE)) /\ ~Missing(Designated(LastTab, SESDCORR))
+HasSE == {SE, SESDCORR} \subseteq RowSet(LastTab.rows)
 
 \* .cov : rows / columns in file order, zero rows and columns for fixed and unused parameters.
 \* diagonal (k+3)^2 (so that SE = k+3 as in the .ext file), off-diagonals in -1..1: positive definite
@@ -240,8 +244,8 @@ HasSE == ~Missing(Designated(LastTab, SE)) /\ ~Missing(Designated(LastTab, SESDC
 CovVal(k1, k2) == IF k1 = k2 THEN (k1 + 3) * (k1 + 3) ELSE ((k1 + k2) % 3) - 1
 CovFileVal(cfg, k1, k2) == IF Flag(FileOrder(cfg)[k1]) \/ Flag(FileOrder(cfg)[k2]) THEN 0 ELSE CovVal(k1, k2)
 \* expected data frame: report order, fixed / unused removed
-CovExpected(cfg) == LET K == SetToSeq(KeptIdx(cfg)) IN
-    [a \in 1..Len(K) |-> [b \in 1..Len(K) |-> CovVal(FilePos(cfg, ReportOrder(cfg)[K[a]]), FilePos(cfg, ReportOrder(cfg)[K[b]]))]]
+CovExpected(cfg) == LET K == SetToSeq(KeptIdx(cfg)) pos == RepPos(cfg) IN
+    [a \in 1..Len(K) |-> [b \in 1..Len(K) |-> CovVal(pos[K[a]], pos[K[b]])]]
 Abs(x) == IF x < 0 THEN 0 - x ELSE x
 RECURSIVE SumAbs(_, _, _)
 SumAbs(k, n, j) == IF j > n THEN 0 ELSE (IF j = k THEN 0 ELSE Abs(CovVal(k, j))) + SumAbs(k, n, j + 1)
@@ -250,8 +254,9 @@ CovDominant == (Done /\ mode = "run") => \A k \in 1..Len(FileOrder(file.cfg)) : 
 CovByDeletion(cfg) ==
     LET n == Len(FileOrder(cfg))
         nonzero == {k \in 1..n : \E j \in 1..n : CovFileVal(cfg, k, j) # 0}
-        K == SetToSeq({k \in 1..Len(ReportOrder(cfg)) : FilePos(cfg, ReportOrder(cfg)[k]) \in nonzero})
-    IN [a \in 1..Len(K) |-> [b \in 1..Len(K) |-> CovFileVal(cfg, FilePos(cfg, ReportOrder(cfg)[K[a]]), FilePos(cfg, ReportOrder(cfg)[K[b]]))]]
+        pos == RepPos(cfg)
+        K == SetToSeq({k \in 1..Len(pos) : pos[k] \in nonzero})
+    IN [a \in 1..Len(K) |-> [b \in 1..Len(K) |-> CovFileVal(cfg, pos[K[a]], pos[K[b]])]]
 CovTwoWays == (Done /\ mode = "run") => CovExpected(file.cfg) = CovByDeletion(file.cfg)
 
 \* .phi : subjects with ids 1, 3, 7; ETA(i) / PHI(i); ETC flattened lower triangle row-wise; OBJ
@@ -286,8 +291,7 @@ Emit ==
            PrintT(<<"RUN", ToJson([cfg |-> cfg, phikind |-> file.phikind, zero |-> file.zero,
                       fileorder |-> [k \in 1..Len(FileOrder(cfg)) |-> ParOut(FileOrder(cfg)[k])],
                       reportorder |-> [k \in 1..Len(ReportOrder(cfg)) |-> ParOut(ReportOrder(cfg)[k])],
-                      ext |-> [k \in 1..Len(file.tabs) |-> ExtOut(cfg, file.tabs[k])],
-                      extrows |-> [k \in 1..Len(file.tabs) |-> ExtRows(cfg, file.tabs[k])],
+                      ext |-> LET pos == RepPos(cfg) IN [k \in 1..Len(file.tabs) |-> ExtOut(cfg, pos, file.tabs[k])],
                       runfixed |-> RunFixed(cfg),
                       has_se |-> HasSE,
                       covfile |-> [a \in 1..Len(FileOrder(cfg)) |-> [b \in 1..Len(FileOrder(cfg)) |-> CovFileVal(cfg, a, b)]],
